@@ -43,6 +43,7 @@ type Run struct {
 	exhaustive   bool
 	maxSamples   int
 	maxViol      int
+	noFloors     bool
 }
 
 type violation struct {
@@ -192,7 +193,11 @@ func (r *Run) Sample(v any) {
 }
 
 // WantSample tells whether another sample would still be stored.
-func (r *Run) WantSample() bool { r.mu.Lock(); defer r.mu.Unlock(); return len(r.samples) < r.maxSamples }
+func (r *Run) WantSample() bool {
+	r.mu.Lock()
+	defer r.mu.Unlock()
+	return len(r.samples) < r.maxSamples
+}
 
 // Inconclusive records a reason why the run cannot give a verdict.
 func (r *Run) Inconclusive(reason string) {
@@ -203,10 +208,16 @@ func (r *Run) Inconclusive(reason string) {
 
 // Floor makes the run inconclusive unless counter name reached min.
 func (r *Run) Floor(name string, min int64) {
+	if r.noFloors {
+		return
+	}
 	if v := r.Counter(name); v < min {
 		r.Inconclusive(fmt.Sprintf("coverage floor not met: %s=%d < %d", name, v, min))
 	}
 }
+
+// DisableFloors turns coverage floors off (single-run replays).
+func (r *Run) DisableFloors() { r.noFloors = true }
 
 // Violation reports a violation with structural signature sig. If
 // KNOWN_FINDINGS.txt lists property+sig as known it is counted as a known
